@@ -892,7 +892,8 @@ class Outputs:
 
                 partial_filenames[out_format] = filename.name
 
-            all_filenames[valid_name] = partial_filenames
+            # The same bucket can be requested by several entries of 'save_data_to_file'
+            all_filenames.setdefault(valid_name, {}).update(partial_filenames)
 
         datatree: "xr.DataTree" = _dict_to_datatree(all_filenames)
         return datatree
